@@ -78,6 +78,8 @@ def ev(n, env):
                 raise IndexError("%s[%d]" % (_name(o), i))
             return v[i]
         raise Unsupported("index")
+    if k == "Cond":
+        return ev(n[3], env) if ev(n[2], env) else ev(n[4], env)
     if k == "Un":
         if n[2] == "-":
             return -ev(n[3], env)
